@@ -53,16 +53,21 @@ CHECKS = {
                 rule="one case = one history; at every close every index file is compared with the index derived from its log by the independent parser, and the directory is copied and reopened (RW and RO alternating) with all / each single (thorough: random subsets of) index files removed and fully observed against the model; non-trivial = an index of a non-head segment was removed, or a multi-segment log with deletes/migration was closed and reopened; distinct by trace hash"),
     "C12": dict(level="exploration", jobs=[J("TestC12", (4, 500), (16, 6000), steps=45)],
                 rule="one case = one history biased to deletes of every shape; every delete is checked: returned subset of requested and live, byte-equal content, exact size from the segment file version, relative/empty/repeat rules, then the full scan equals the pre-state minus the returned messages; non-trivial = >=2 different structural delete outcomes (segment role x same-base/rebased/emptied/tail) or one outcome plus a reopen; distinct by trace hash"),
-    "C13": dict(level="exploration", jobs=[J("TestC13Hist", (2, 300), (8, 3000), steps=40)],
-                rule="placeholder (extended by the codec job)"),
+    "C07": dict(level="fault_enumeration", jobs=[J("TestC07", (4, 12), (16, 40)), J("FuzzRecoverBytes", (0, 0), (1, 60), kind="fuzz")],
+                rule="one evaluation = one damaged head segment: a segment of 1..6 generated messages (four index configurations, V2; V1 for truncation only) written by the repository's writers, then EVERY truncation length (0, >=8), every byte position after the header (quick: one bit + 0x00 + 0xFF; thorough: all 8 bits), zero/0xFF/pattern tails of every length up to two records, and every index damage (missing, every truncation, every byte, extra items, other layout/container); oracle = independent reference parser (longest valid prefix, derived index); non-trivial = valid prefix is proper and non-empty, or only the index is damaged; distinct by (segment hash, damage)",
+                exhaustive_note="per generated segment the enumerated damage space is complete (thorough) / complete for truncations and index damage, sampled bits for byte corruption (quick)"),
+    "C13": dict(level="exploration", jobs=[J("TestC13Codec", (4, 5000), (16, 100000)), J("TestC13Hist", (2, 300), (8, 3000), steps=40), J("FuzzParseDifferential", (0, 0), (1, 60), kind="fuzz")],
+                rule="codec job: one case = up to 5 generated messages (key/value 0..300 B plus 4 KiB/70 KiB, times over the whole int64 microsecond range, offsets up to MaxInt64) x V1/V2 x file/mmap reader x four index layouts x both index containers: writer bytes == independent encoder for log and index, reported positions, Size, readers on independently encoded files, parser agreement on a damaged copy; history job: Stat and Log.Size against os.Stat after every step; non-trivial codec case = >=2 records or an empty key/value or a boundary time; history case = multi-segment with deletes; distinct by case hash"),
+    "C14": dict(level="fault_enumeration", jobs=[J("TestC14", (4, 12), (16, 14))],
+                rule="one evaluation = one damage of one .log file of a generated multi-segment V2 log (4..14 messages, deletes, index files intact): bit flip, 1-8 byte overwrite, truncation, zero-filled tail (quick: one position per record field + length-field high bits + 5 cut points per record; thorough: every position, all bits), then a fresh Open and Get/Consume at every offset, GetByKey/ConsumeByKey for every key, GetByTime at every microsecond, each compared with the same call on the undamaged copy and the model (safety, must-fail, unchanged, no panic, <=128 MiB per call); non-trivial = damage inside a record; distinct by (log hash, damage, field hit, segment role)"),
+    "C19": dict(level="exploration", jobs=[J("TestC19Handles", (2, 1500), (8, 10000)), J("TestC19Hist", (2, 250), (8, 2500), steps=35)],
+                rule="handles job: one case = a sequence of open-RW/open-RO/close/publish/read-only queries/failing opens (flipped index flags, corrupt index with Check, missing directory) over three handle slots, checked against the lock matrix; history job: read-only sessions (1-3 handles, optional index removal) inside C01-style histories with full observation against the model, ErrReadonly, byte comparison of *.log; non-trivial = a failed open followed by a successful one, or >=2 simultaneous read-only handles (handles job) / a read-only session on a multi-segment log (history job); distinct by case hash"),
     "C15": dict(level="exploration", jobs=[J("TestC15", (4, 400), (16, 4000), steps=40)],
                 rule="one case = one history biased to FindBy*/TrimBy* (offset, count, size on single-version logs, age) in single, Multi and MultiOffsets variants with bounds below/inside/above the live range; prefix and bound predicates from the property; non-trivial = a trim removed messages on a state with >=2 segments; distinct by trace hash"),
     "C16": dict(level="exploration", jobs=[J("TestC16", (4, 400), (16, 4000), steps=40)],
                 rule="one case = one history over <=5 keys (nil, collision pair) with tombstones, message times on an hour grid relative to the run start so Compact(age) is clock-insensitive; latest-value map before/after and allowed-removal predicates; non-trivial = a compaction removed messages and met a tombstone or a multi-segment log; distinct by trace hash"),
     "C17": dict(level="exploration", jobs=[J("TestC17", (4, 300), (16, 3000), steps=40)],
                 rule="one case = one history where every reopen re-draws NewSegmentsVersion/KeepRewriteVersion/EagerVersionMigrate and Migrate runs to either version; model unchanged across migration (full observation), version byte of every segment file checked after migrate/eager open/publish/delete, migrate twice == once; non-trivial = both versions present at once and a delete or migration afterwards; distinct by trace hash"),
-    "C19": dict(level="exploration", jobs=[J("TestC19Hist", (2, 300), (8, 2500), steps=35)],
-                rule="placeholder (extended by the handles job)"),
     "C20": dict(level="exploration", jobs=[J("TestC20", (4, 300), (16, 2500), steps=40)],
                 rule="one case = one history with Log.Backup / package Backup into a fresh directory, or into the previous one when only publishes happened since; Check passes, the opened backup is fully observed against the model at the time of the call, source files byte- and mtime-identical (missing index files may be rebuilt); non-trivial = a repeated backup with a rollover in between, or a source with an emptied head / rebased segment; distinct by trace hash"),
 }
@@ -98,6 +103,8 @@ def build(scr, race=False):
 
 def run_job(scr, binary, pid, job, tier, seed, jobidx):
     shards, cases = job[tier]
+    if shards <= 0:
+        return []
     procs = []
     for i in range(shards):
         s = splitmix(seed, jobidx * 1000 + i)
@@ -112,6 +119,14 @@ def run_job(scr, binary, pid, job, tier, seed, jobidx):
         cmd = [binary, "-test.run", "^%s$" % job["test"], "-test.v", "-test.timeout", "%ds" % to, "-test.count", "1"]
         if job["kind"] == "rapid":
             cmd += ["-rapid.checks=%d" % cases, "-rapid.seed=%d" % s, "-rapid.steps=%d" % job["steps"], "-rapid.nofailfile", "-rapid.shrinktime=60s"]
+        if job["kind"] == "fuzz":
+            # native coverage-guided fuzzing: cannot be seeded; `cases` is the campaign length in seconds
+            corpus = os.path.join(ROOT, "corpus", job["test"])
+            if os.path.isdir(corpus):
+                dst = os.path.join(work, "testdata", "fuzz", job["test"])
+                shutil.copytree(corpus, dst, dirs_exist_ok=True)
+            cmd = [binary, "-test.run", "^$", "-test.fuzz", "^%s$" % job["test"], "-test.fuzztime", "%ds" % cases,
+                   "-test.fuzzcachedir", os.path.join(work, "fuzzcache"), "-test.parallel", str(NCPU), "-test.timeout", "%ds" % (cases + 600)]
         log = open(os.path.join(scr, "log-%d-%d.txt" % (jobidx, i)), "w")
         p = subprocess.Popen(cmd, cwd=work, env=env, stdout=log, stderr=subprocess.STDOUT)
         procs.append((p, log, stats, i, cases, s))
@@ -151,6 +166,20 @@ def check(pid, tier, seed):
             results = run_job(scr, bins[job["race"]], pid, job, tier, seed, ji)
             for r in results:
                 vl = [l for l in r["out"].splitlines() if l.startswith("VIOLATION property=")]
+                if job["kind"] == "fuzz":
+                    mm = re.findall(r"execs: (\d+)", r["out"])
+                    if mm:
+                        merged["counters"]["fuzz_execs." + job["test"]] = merged["counters"].get("fuzz_execs." + job["test"], 0) + int(mm[-1])
+                    fm = re.search(r"Failing input written to (\S+)", r["out"])
+                    if r["rc"] != 0 and fm:
+                        src = os.path.join(scr, "w-%d-%d" % (ji, r["shard"]), fm.group(1))
+                        os.makedirs(os.path.join(ROOT, "replay", pid), exist_ok=True)
+                        dst = os.path.join(ROOT, "replay", pid, job["test"] + "-" + os.path.basename(fm.group(1)))
+                        try:
+                            shutil.copy(src, dst)
+                        except Exception:
+                            dst = src
+                        vl.append("VIOLATION property=%s replay=%s" % (pid, dst))
                 if vl:
                     violations += vl
                     tail = "\n".join(r["out"].splitlines()[-60:])
@@ -164,7 +193,7 @@ def check(pid, tier, seed):
                         m = re.search(r"OK, passed (\d+) tests", r["out"])
                         if not m or int(m.group(1)) < r["cases"]:
                             inconclusive.append("%s shard %d passed %s of %d cases" % (job["test"], r["shard"], m.group(1) if m else "?", r["cases"]))
-                    if r["stats"] is None:
+                    if r["stats"] is None and job["kind"] != "fuzz":
                         inconclusive.append("%s shard %d wrote no statistics" % (job["test"], r["shard"]))
                 st = r["stats"]
                 if st:
@@ -237,6 +266,74 @@ def setup():
         shutil.rmtree(scr, ignore_errors=True)
 
 
+ENGINES = {
+    "hist": ("harness/hist.go", "rapid state machine driving a real log and a reference model in lock-step; per-property profiles and oracles; traces replay without rapid"),
+    "codec": ("harness/codec_test.go", "differential test of the record/index codecs against an independent encoder/decoder; native fuzz target"),
+    "segdamage": ("harness/c07_test.go", "exhaustive damage enumeration of generated head segments with an independent reference parser"),
+    "apidamage": ("harness/c14_test.go", "damage enumeration on multi-segment logs observed through the whole read API, differential against the undamaged copy"),
+    "handles": ("harness/c19_test.go", "lock-matrix state machine over three handles"),
+    "crash": ("harness/crash.go", "FS-tap crash-image and power-loss-image synthesis from complete runs, admissible-set oracle"),
+    "sched": ("harness/sched_test.go", "owned pause-point windows with brute-force linearization; free-running stress under the race detector"),
+    "notify": ("harness/notify_test.go", "cooperative scheduler over the notifier's pause points inside a synctest bubble; exhaustive small configurations"),
+}
+
+PROP_ENGINES = {"C05": ["crash"], "C06": ["crash"], "C07": ["segdamage"], "C08": ["sched"], "C13": ["codec", "hist"], "C14": ["apidamage"],
+                "C18": ["notify"], "C19": ["handles", "hist"]}
+
+TECHNIQUE = {
+    "hist": "model-based stateful property-based testing (rapid state machine vs reference model)",
+    "codec": "differential property-based testing against an independent codec + coverage-guided fuzzing",
+    "segdamage": "generated segments x exhaustive fault enumeration against a reference parser (property-based)",
+    "apidamage": "generated logs x enumerated byte-level faults, differential + model oracle (property-based)",
+    "handles": "stateful property-based testing against a lock-matrix model",
+    "crash": "generated workloads x enumeration of every file-system step (crash / torn / power-loss images) against an admissible-set oracle",
+    "sched": "generated schedules at owned pause points with a linearizability oracle; seeded stress under the Go race detector",
+    "notify": "generated and exhaustively enumerated schedules of a cooperative scheduler (synctest bubble) with a quiescence oracle",
+}
+
+
+def manifest():
+    props = [json.loads(l) for l in open(os.path.join(ROOT, "properties.jsonl"))]
+    checks = []
+    used = {}
+    for p in props:
+        pid = p["id"]
+        if pid not in CHECKS:
+            continue
+        engs = PROP_ENGINES.get(pid, ["hist"])
+        for e in engs:
+            used.setdefault(e, []).append(pid)
+        spec = CHECKS[pid]
+        checks.append(dict(property_id=pid,
+                           quick_cmd="python3 verif.py check %s --tier quick" % pid,
+                           thorough_cmd="python3 verif.py check %s --tier thorough" % pid,
+                           evidence_file="/verif/evidence/%s.json" % pid,
+                           replay_cmd_template="python3 verif.py replay %s {path}" % pid,
+                           engine="+".join(engs),
+                           level_claimed=dict(category=spec["level"],
+                                              text=spec.get("level_text", "generated-input search against an explicit oracle: " + spec["rule"][:400]),
+                                              design_ref="DESIGN.md section 4, " + pid),
+                           level_note=spec.get("level_note", "bounded exploration (small logs, finite case counts); trusts the reference model / independent codec in /verif/harness, the Go toolchain and (where used) the verif build-tag hooks being complete; absence of a violation is not a proof"),
+                           technique="; ".join(TECHNIQUE[e] for e in engs)))
+    claimed = {c["property_id"] for c in checks}
+    na = [dict(property_id=p["id"], reason=NOT_YET.get(p["id"], "not claimed")) for p in props if p["id"] not in claimed]
+    hook_commits = subprocess.run(["git", "-C", "/repo", "log", "--format=%h", "--grep", "^verif hooks"], stdout=subprocess.PIPE, text=True).stdout.split()
+    m = dict(version=1, setup_cmd="python3 verif.py setup",
+             hooks=dict(guard="verif", enable="go test -tags verif (harness module /verif/harness has `replace github.com/klev-dev/klevdb => /repo`)",
+                        baseline_off_cmd="cd /repo && GOPROXY=off GOSUMDB=off GOTOOLCHAIN=local go1.26.8 test -json -vet=off -count=1 -timeout 25m ./...",
+                        source_commits=hook_commits, add_only=True),
+             engines=[dict(name=e, path=ENGINES[e][0], serves_properties=sorted(used[e]), kind_free_text=ENGINES[e][1]) for e in ENGINES if e in used],
+             checks=checks, not_applicable=na,
+             notes="Technique family: property-based testing and fuzzing. See DESIGN.md. known_findings.json lists repaired defects (fix: commits in /repo, status fixed, suppress nothing) and recorded findings (matched by exact signature).")
+    with open(os.path.join(ROOT, "MANIFEST.json"), "w") as f:
+        json.dump(m, f, indent=1)
+    print("MANIFEST.json: %d checks, %d not_applicable" % (len(checks), len(na)))
+    return 0
+
+
+NOT_YET = {p: "check under construction in this session (engine not yet built); will be claimed when its check exists" for p in ("C05", "C06", "C08", "C18")}
+
+
 def main():
     a = sys.argv[1:]
     if not a:
@@ -256,6 +353,8 @@ def main():
         tier = "quick"
     if a[0] == "setup":
         return setup()
+    if a[0] == "manifest":
+        return manifest()
     if a[0] == "check":
         return check(a[1], tier, seed)
     if a[0] == "replay":
